@@ -116,6 +116,9 @@ def digests(p: G.Program, dirpath: Optional[str] = None):
 # metamorphic family
 
 
+ALLOW = ("alias-of-imported-struct", "alias-of-imported-struct-field", "struct-contains-message", "string-special", "prefix-names")
+
+
 @dataclass
 class MetaCase:
     base: G.Program
@@ -125,7 +128,7 @@ class MetaCase:
 def build_case(ch: G.Chooser, core: Optional[bool] = None) -> MetaCase:
     if core is None:
         core = ch.chance(0.12)
-    base = G.build_program(ch, import_coredefs=core, auto_pad=True if ch.chance(0.8) else None, min_messages=2)
+    base = G.build_program(ch, import_coredefs=core, auto_pad=True if ch.chance(0.8) else None, min_messages=2, allow=ALLOW)
     case = MetaCase(base)
     for _ in range(ch.integer(1, 2)):
         case.variants.append(("noise", G.add_noise(base, ch, intensity=ch.integer(1, 5))))
@@ -283,17 +286,20 @@ def extract_hashes(outdir: str, name: str):
 def compare_outputs(p: G.Program, dg: dict, ext: dict, trace, res: Result = None):
     """dg: {message name: full digest} from the parser (core included when imported); ext: extract_hashes()."""
     core = set(G.core_defs()["message_defs"]) if p.import_coredefs else set()
-    order = list(dg)
     for lang, pairs in ext.items():
-        names = [n for n in order if not (lang == "c" and n in core)]
-        want_names = [n.lstrip("_0123456789") if lang == "matlab" else n for n in names]
-        got_names = [a for a, _ in pairs]
+        names = [n for n in dg if not (lang == "c" and n in core)]
+        key = (lambda n: n.lstrip("_0123456789")) if lang == "matlab" else (lambda n: n)
+        want_names = sorted(key(n) for n in names)
+        got_names = sorted(a for a, _ in pairs)
         if got_names != want_names:
             miss = [n for n in want_names if n not in got_names]
             extra = [n for n in got_names if n not in want_names]
-            raise Violation(f"output-hash-missing/{lang}", f"{lang} output lists hashes for {len(got_names)} messages, expected {len(want_names)} "
-                            f"in definition order; missing {miss[:3]}, unexpected {extra[:3]}", trace)
-        for n, (gn, text) in zip(names, pairs):
+            dup = sorted({n for n in got_names if got_names.count(n) > 1})
+            raise Violation(f"output-hash-missing/{lang}", f"{lang} output lists hashes for {len(got_names)} messages, expected one for each of the "
+                            f"{len(want_names)} messages; missing {miss[:3]}, unexpected {extra[:3]}, repeated {dup[:3]}", trace)
+        got = dict(pairs)
+        for n in names:
+            text = got[key(n)]
             want = dg[n][:8]
             if lang in ("python", "c"):
                 ok = re.fullmatch(r"0x[0-9A-Fa-f]{1,8}", text) is not None and int(text, 16) == int(want, 16)
@@ -612,8 +618,8 @@ def shard(idx: int, seed: int, n_meta: int, out_every: int, n_proc: int, n_stamp
         # outputs with the core definitions imported (core messages appear in Python / JS / MATLAB)
         for k in range(2):
             res.evaluations += 1
-            check_outputs(G.build_program(rnd, import_coredefs=True, min_messages=2), res)
-        progs = [G.build_program(rnd, import_coredefs=(k % 3 == 0), min_messages=2) for k in range(n_proc)]
+            check_outputs(G.build_program(rnd, import_coredefs=True, min_messages=2, allow=ALLOW), res)
+        progs = [G.build_program(rnd, import_coredefs=(k % 3 == 0), min_messages=2, allow=ALLOW) for k in range(n_proc)]
         if progs:
             res.evaluations += len(progs)
             check_processes(progs, res, black=False)
@@ -621,7 +627,7 @@ def shard(idx: int, seed: int, n_meta: int, out_every: int, n_proc: int, n_stamp
                 check_processes(progs[:1], res, black=True)
         for k in range(n_stamp):
             res.evaluations += 1
-            check_generated_stamping(G.build_program(rnd, import_coredefs=(k % 2 == 0), auto_pad=True, min_messages=2), res, timecode=bool((k + idx) % 2))
+            check_generated_stamping(G.build_program(rnd, import_coredefs=(k % 2 == 0), auto_pad=True, min_messages=2, allow=ALLOW), res, timecode=bool((k + idx) % 2))
         if idx == 0:
             res.evaluations += 1
             check_core_stamping(res)
